@@ -122,6 +122,15 @@ Fixpoint digits_value (t : text) (acc : N) : option N :=
 
 Definition u32_max : N := 4294967295.
 
+(* the text before the first comment opener: &t[..min(t.find("/*"), t.find("//"))] *)
+Fixpoint cut_comment (t : text) : text :=
+  match t with
+  | [] => []
+  | c :: r =>
+      if (c =? 47) && match r with d :: _ => (d =? 42) || (d =? 47) | [] => false end
+      then [] else c :: cut_comment r
+  end.
+
 (* str::parse::<u32>(): optional '+', at least one ASCII digit, value <= u32::MAX *)
 Definition parse_u32 (t : text) : option N :=
   let ds := match t with 43 :: r => r | _ => t end in
